@@ -32,11 +32,31 @@ def main(argv=None):
         traceback.print_exc()
         print(f'HARNESS-ERROR property={prop}', flush=True)
         return 2
+    # violations found once (by a deep exploration) and repaired since: replayed on every run, whatever the tier reaches
+    nreg = 0
+    try:
+        import glob
+        import json
+        rdir = os.path.join(os.path.dirname(os.path.dirname(os.path.abspath(__file__))), 'regressions')
+        for f in sorted(glob.glob(os.path.join(rdir, f'{prop}-*.json'))):
+            doc = json.load(open(f))
+            out = mod.replay(doc['replay'])
+            nreg += 1
+            token = doc.get('key', '').split('/')[0].replace('api-session:', '').replace('session:', '')
+            hits = [v for v in (out.get('violations') or []) if token in json.dumps(v, default=repr)]
+            if hits:
+                rep.add(doc['key'], doc.get('clause', token), doc['replay'],
+                        dict(cause=f'recorded violation {os.path.basename(f)} is back', now=str(hits[0])[:200]))
+    except Exception:
+        traceback.print_exc()
+        print(f'HARNESS-ERROR property={prop}', flush=True)
+        return 2
     new, known, _ = rep.finish()
     wall = time.time() - t0
     cov = res['coverage']
     cov.setdefault('known_finding_keys', known)
     cov.setdefault('violation_keys', new)
+    cov.setdefault('recorded_violations_replayed', nreg)
     path = evidence.write(prop, args.tier, world.seed(), res['level'], cov, wall, new, res.get('assumptions', ()))
     print(f'{prop} tier={args.tier} seed={world.seed()} src={world.SRC} wall={wall:.1f}s '
           f'violations={new} known={known} evidence={path}', flush=True)
